@@ -25,4 +25,5 @@ Extraction "extracted/model.ml"
   enc tok wf_item adjacency_ok enc_all
   show_stream
   s_of_cstr s_of_bytes s_of_bytes_attr s_fill s_of_elems s_append_elem s_append s_insert s_insert_range
-  s_erase_all s_erase_from s_erase_range s_set.
+  s_erase_all s_erase_from s_erase_range s_set
+  glyph_of_cstr glyph_of_array glyph_of_char.
